@@ -174,6 +174,39 @@ def scenario(name, depth, fallback, encoding="utf-8"):
         await c.remove(d)
         if not tree_has(base, "remove"):
             return
+        if name not in (".", ".."):
+            # 11 the bare name, relative, from two working directories: the name inside itself
+            await c.change_directory(P)
+            await c.make_directory(name)
+            await c.change_directory(name)
+            await c.make_directory(name)
+            await c.change_directory(name)
+            pwd = await c.get_current_directory()
+            if pwd != d / name:
+                problems.append({"kind": "pwd", "step": "relative-nested", "got": str(pwd), "want": str(d / name)})
+            exp3 = dict(base)
+            exp3[str(d)] = None
+            exp3[str(d / name)] = None
+            if not tree_has(exp3, "relative-nested"):
+                return
+            # 12 removed under the absolute spelling, made again under the relative one
+            await c.change_directory(P)
+            await c.remove(d)
+            await c.make_directory(name)
+            exp4 = dict(base)
+            exp4[str(d)] = None
+            if not tree_has(exp4, "remade-after-absolute-remove"):
+                return
+            # 13 removed by another session, made again by this one
+            c3 = a.Client(path_io_factory=a.MemoryPathIO, encoding=encoding)
+            await c3.connect("127.0.0.1", 2121)
+            await c3.login()
+            await c3.remove(d)
+            await c3.quit()
+            await c.make_directory(name)
+            if not tree_has(exp4, "remade-after-other-session-remove"):
+                return
+            await c.remove(d)
         await c.quit()
 
     try:
